@@ -140,6 +140,11 @@ type stlCue struct {
 	Rows [][]stlRun `json:"rows"`
 	// UserDataBefore: number of user-data TTI blocks (EBN 0xFE) placed before this cue
 	UserDataBefore int `json:"user_data_before,omitempty"`
+	// ExtraBreak (read direction): one more line-break code that delimits an empty row: 1 ahead of the first row,
+	// 2 doubled between the first two rows (after the first when there is one row), 3 after the last row
+	ExtraBreak int `json:"extra_break,omitempty"`
+	// Comment (read direction): the block's comment flag is 01h (translator's comment); it is a TTI block like any other
+	Comment bool `json:"comment,omitempty"`
 }
 
 type stlGSI struct {
@@ -311,9 +316,18 @@ func renderSTL(d stlDoc) ([]byte, bool) {
 		blk[13] = byte(c.VP)
 		blk[14] = byte(c.JC)
 		blk[15] = 0
+		if c.Comment {
+			blk[15] = 1
+		}
 		var tf []byte
+		if c.ExtraBreak == 1 {
+			tf = append(tf, 0x8a)
+		}
 		for j, row := range c.Rows {
 			if j > 0 {
+				tf = append(tf, 0x8a)
+			}
+			if j == 1 && c.ExtraBreak == 2 {
 				tf = append(tf, 0x8a)
 			}
 			enc, ok := renderSTLRow(row, teletext, d.SpaceAround)
@@ -321,6 +335,9 @@ func renderSTL(d stlDoc) ([]byte, bool) {
 				return nil, false
 			}
 			tf = append(tf, enc...)
+		}
+		if c.ExtraBreak == 3 || c.ExtraBreak == 2 && len(c.Rows) == 1 {
+			tf = append(tf, 0x8a)
 		}
 		if len(tf) > 112 {
 			return nil, false
@@ -344,6 +361,7 @@ type stlObsCue struct {
 	In, Out int64 // ns
 	VP, JC  int   // JC -1 when unknown
 	Rows    [][]stlRun
+	NRows   int // STLPosition.Rows, -1 when absent
 }
 
 type stlObs struct {
@@ -390,7 +408,7 @@ func projSTL(s *astisub.Subtitles) (stlObs, string) {
 		o.TCP = int64(m.STLTimecodeStartOfProgramme)
 	}
 	for _, it := range s.Items {
-		c := stlObsCue{In: int64(it.StartAt), Out: int64(it.EndAt), JC: -1, VP: -1}
+		c := stlObsCue{In: int64(it.StartAt), Out: int64(it.EndAt), JC: -1, VP: -1, NRows: -1}
 		if sa := it.InlineStyle; sa != nil {
 			if sa.STLJustification != nil {
 				switch *sa.STLJustification {
@@ -406,6 +424,7 @@ func projSTL(s *astisub.Subtitles) (stlObs, string) {
 			}
 			if sa.STLPosition != nil {
 				c.VP = sa.STLPosition.VerticalPosition
+				c.NRows = sa.STLPosition.Rows
 			}
 		}
 		for _, l := range it.Lines {
@@ -812,6 +831,20 @@ func genSTLDoc(t *rapid.T, avoidKnown bool) stlDoc {
 		d.Cues = append(d.Cues, c)
 	}
 	return d
+}
+
+// addBlankRowsAndComments gives some cues an empty row (one more line-break code) or the comment flag (read direction only).
+func addBlankRowsAndComments(t *rapid.T, d *stlDoc) {
+	for ci := range d.Cues {
+		c := &d.Cues[ci]
+		if len(c.Rows) == 1 && len(c.Rows[0]) == 1 && len(c.Rows[0][0].Text) >= 100 {
+			continue // the text field is full
+		}
+		if rapid.IntRange(0, 3).Draw(t, "extrabreak") == 0 {
+			c.ExtraBreak = rapid.IntRange(1, 3).Draw(t, "extrabreakat")
+		}
+		c.Comment = rapid.IntRange(0, 5).Draw(t, "commentflag") == 0
+	}
 }
 
 // addRecodes marks some non-first runs of open-subtitling rows as introduced by a redundant style code (read direction only).
